@@ -51,8 +51,8 @@ macro "startOp_cases" h:ident : tactic => `(tactic| (
 @[simp] theorem inLru_gRel {r} : (Pc.gRel r).inLru = false := rfl
 @[simp] theorem holding_rK {t c k l u} : (Pc.rK t c k l u).holding = false := rfl
 @[simp] theorem inLru_rK {t c k l u} : (Pc.rK t c k l u).inLru = false := rfl
-@[simp] theorem holding_aG {k} : (Pc.aG k).holding = false := rfl
-@[simp] theorem inLru_aG {k} : (Pc.aG k).inLru = false := rfl
+@[simp] theorem holding_gRelS {u t} : (Pc.gRelS u t).holding = true := rfl
+@[simp] theorem inLru_gRelS {u t} : (Pc.gRelS u t).inLru = false := rfl
 @[simp] theorem holding_aS {k} : (Pc.aS k).holding = false := rfl
 @[simp] theorem inLru_aS {k} : (Pc.aS k).inLru = false := rfl
 @[simp] theorem at_pc (th : Thread) (pc : Pc) : (th.at pc).pc = pc := rfl
